@@ -34,6 +34,9 @@ EXEC = {
                 q='file:0,pairs:900,pairspt:500', t='file:0,pairs:15000,pairspt:8000'),
     'C03': dict(owns=['C03'], decide='C03_Dest (MC); logged destination of every successful Parse = RefDestParse (leaf values, slice length/order, untouched optionals, pointer allocation, $extra)',
                 q='file:0,universe:600,success:900,random:300', t='file:0,universe:0,success:12000,random:4000'),
+    'C14': dict(owns=['C14'], decide='one record rendered as Go map, JSON (zjson), zhttp JSON body, url-encoded form, query string and environment: every view is validated against the reference for the record '
+                '(KeyOf per front end, string leaves, flat sources resolving nested structs against the same source) and the views are compared with each other',
+                q='file:0,frontends:250', t='file:0,frontends:8000'),
     'C09': dict(owns=['C09'], decide='every visit order explored by StructField (MC); all n! forced orders of each real case agree',
                 q='file:0,universe:1200,random:500', t='file:0,universe:0,random:12000'),
 }
@@ -103,6 +106,25 @@ def attribute(prop, owns, verdicts, trace_file, known, module='Trace_Exec', base
         explained = [v for v in remaining if v['id'] not in still]
         if explained:
             kf[k['id']] = [k, len({v['id'] for v in explained})]
+        remaining = [v for v in remaining if v['id'] in still]
+    # a trace may exhibit several listed findings at once: accepted only under all of their deviations together
+    ks = [k for k in known.get('known', []) if k['property'] == prop and k.get('variant')]
+    if remaining and len(ks) > 1:
+        ids = sorted({v['id'] for v in remaining})
+        d = vlib.scratch('kf.')
+        sub = os.path.join(d, 'sub.ndjson')
+        with open(sub, 'w') as f:
+            for tid in ids:
+                f.writelines(vlib.extract_trace(trace_file, tid))
+        consts = dict(base_consts or vlib.exec_consts(soft='any'))
+        for k in ks:
+            consts.update(k['variant'])
+        vs, _ = vlib.validate_traces(module, sub, consts)
+        still = {v['id'] for v in vs if v['prop'] in owns}
+        explained = [v for v in remaining if v['id'] not in still]
+        if explained:
+            combo = dict(ks[0], id='+'.join(k['id'] for k in ks), what='several of the listed findings at once (' + ', '.join(k['id'] for k in ks) + ')')
+            kf[combo['id']] = [combo, len({v['id'] for v in explained})]
         remaining = [v for v in remaining if v['id'] in still]
     return remaining, kf, others
 
@@ -601,7 +623,7 @@ CHAIN_SW = ['SwNotConsumed', 'SwCodeFlipBeforeOpts', 'SwOptsOnCopy', 'SwSettersO
 
 def chain_consts(ty, maxlen, level, extra=None):
     c = {'MaxLen': str(maxlen), 'OptLevel': '"%s"' % level, 'ChainTy': '"%s"' % ty, 'CasesFile': '"cases.ndjson"'}
-    for s in CHAIN_SW:
+    for s in CHAIN_SW + ['SwNestedSourceTag', 'SwEmptyRecordSourceTag', 'SwFlatNested']:
         c[s] = 'TRUE'
     if extra:
         c.update(extra)
